@@ -329,6 +329,12 @@ func runServerScenario(seed int64, originFocus bool) *scenario {
 	if breakWhat == 2 {
 		method = g.pick("POST", "get", "HEAD", "GETX", "")
 	}
+	if breakWhat == 1 && r.Intn(3) == 0 {
+		// two faults at once: the status tells which one the server names (a missing Upgrade token is
+		// answered 426 whatever else is wrong after it)
+		method = g.pick("POST", "PUT", "HEAD")
+		sc.tag("double-fault:upgrade+method")
+	}
 	set("Sec-Websocket-Version", g.tokenList("13", breakWhat != 3))
 	key := g.key()
 	if breakWhat == 4 {
